@@ -47,7 +47,16 @@ type C10Step struct {
 	Fault string `json:"fault,omitempty"` // dup | late_dup | reorder (how the channel produced this arrival)
 }
 
+// C10Block: Count deliveries of fresh descriptors of one type (event id and PTS increasing)
+// during which the caller does NOT look at Open(); Open() is polled after the block.
+type C10Block struct {
+	Type  int `json:"type"`
+	Count int `json:"count"`
+}
+
 type C10Script struct {
+	// Blocks (workload "unpolled"): long stretches without a call to Open()
+	Blocks    []C10Block  `json:"blocks,omitempty"`
 	Base      int64       `json:"base"` // PTS of simulated time 0 (mod 2^33)
 	Transport bool        `json:"transport"`
 	Sizes     []int       `json:"sizes,omitempty"`
@@ -77,7 +86,7 @@ func (c10) Info() core.Info {
 			"closed lists and Open() results returned earlier must not change under later calls (they are the caller's)",
 		},
 		SimTimeUnit:    "sim_ticks_90khz",
-		RequiredProbes: []string{"breakaway_then_closer", "breakaway_then_explicit_close_below", "resumption_with_breakaway", "resumption_without_breakaway", "second_breakaway", "dup_within_ring", "dup_beyond_ring", "timer_close_hit", "timer_close_miss", "multi_descriptor_signal", "pts_wrap", "no_pts", "vss_pair", "open_depth_ge4", "transport_path", "same_object_twice", "held_lists_checked", "caller_wipes_open_list"},
+		RequiredProbes: []string{"breakaway_then_closer", "breakaway_then_explicit_close_below", "resumption_with_breakaway", "resumption_without_breakaway", "second_breakaway", "dup_within_ring", "dup_beyond_ring", "timer_close_hit", "timer_close_miss", "multi_descriptor_signal", "pts_wrap", "no_pts", "vss_pair", "open_depth_ge4", "transport_path", "same_object_twice", "held_lists_checked", "caller_wipes_open_list", "unpolled_stretch", "unpolled_ge_256_calls"},
 	}
 }
 
@@ -343,7 +352,24 @@ func prog0(stack []c10Seg) int {
 	return 0
 }
 
+func c10GenUnpolled(r *core.Rand) *C10Script {
+	s := &C10Script{Workload: "unpolled"}
+	types := []int{0x10, 0x20, 0x30, 0x34, 0x22, 0x40, 0x50, 0x44}
+	gaps := []int{1, 2, 127, 128, 129, 255, 256, 257, 511, 512, 513, 100, 300}
+	for i := r.Range(2, 6); i > 0; i-- {
+		s.Blocks = append(s.Blocks, C10Block{Type: types[r.Intn(len(types))], Count: gaps[r.Intn(len(gaps))]})
+	}
+	if r.Chance(1, 40) {
+		s.Blocks = append(s.Blocks, C10Block{Type: 0x10, Count: r.Pick(32767, 32768, 32769, 65536)})
+		s.Blocks = append(s.Blocks, C10Block{Type: 0x10, Count: 3})
+	}
+	return s
+}
+
 func (c10) Gen(r *core.Rand, tier string) interface{} {
+	if r.Chance(1, 60) {
+		return c10GenUnpolled(r)
+	}
 	var s *C10Script
 	if r.Chance(2, 5) {
 		s = c10GenDay(r, tier == "thorough" && r.Chance(1, 10))
@@ -412,6 +438,9 @@ func (c10) SweepCase(tier string, i int) interface{} {
 func (c10) Size(script interface{}) int {
 	s := script.(*C10Script)
 	n := len(s.Steps)*2 + len(s.Sizes)
+	for _, b := range s.Blocks {
+		n += 1 + b.Count/16
+	}
 	for _, sg := range s.Signals {
 		n += len(sg.Descs)
 	}
@@ -499,8 +528,88 @@ func sdName(d scte35.SegmentationDescriptor) string {
 	return fmt.Sprintf("%#x/e%d/pts%d", int(d.TypeID()), d.EventID(), d.SCTE35().PTS())
 }
 
+// c10Unpolled: the caller processes long runs of signals without calling Open() in between
+// (nothing obliges it to poll). Closed lists are checked on every call, Open() only at the
+// end of each block: it must not show anything that was reported closed meanwhile.
+func c10Unpolled(s *C10Script, c *core.Ctx) {
+	st := scte35.NewState()
+	type inf struct {
+		seq  int
+		gone bool
+	}
+	info := map[scte35.SegmentationDescriptor]*inf{}
+	n := 0
+	c.Probe("unpolled_stretch")
+	c.Log("c10 unpolled blocks=%d", len(s.Blocks))
+	for bi, b := range s.Blocks {
+		c.SetStep(bi)
+		cnt := b.Count
+		if cnt > 70000 {
+			cnt = 70000
+		}
+		if cnt >= 256 {
+			c.Probe("unpolled_ge_256_calls")
+		}
+		for k := 0; k < cnt; k++ {
+			n++
+			_, ds := c10Build(C10Signal{T: int64(n) * 90000, Descs: []C10Desc{{Type: b.Type, Event: uint32(n), SegNum: 1, SegExp: 1}}}, s.Base)
+			d := ds[0]
+			info[d] = &inf{seq: n}
+			var closed []scte35.SegmentationDescriptor
+			var err error
+			if !c.Call("State.ProcessDescriptor", func() { closed, err = st.ProcessDescriptor(d) }) {
+				return
+			}
+			_ = err
+			for _, x := range closed {
+				in := info[x]
+				if in == nil {
+					c.Fail("closed_was_open", "closed_never_processed", "unknown descriptor", "an open descriptor")
+					return
+				}
+				if in.gone {
+					c.Fail("closed_once", "closed_returned_twice", sdName(x), "at most once")
+					return
+				}
+				in.gone = true
+			}
+		}
+		c.Unit("tracker_calls", int64(cnt))
+		var o []scte35.SegmentationDescriptor
+		if !c.Call("State.Open", func() { o = st.Open() }) {
+			return
+		}
+		c.Log("block %d type=%#x count=%d open=%d", bi, b.Type, cnt, len(o))
+		seen := map[scte35.SegmentationDescriptor]bool{}
+		last := 0
+		for _, x := range o {
+			in := info[x]
+			switch {
+			case x == nil || in == nil:
+				c.Fail("open_only_processed", "open_contains_never_processed", "unknown", "subset of processed")
+				return
+			case in.gone:
+				c.Fail("open_not_closed", "open_contains_closed_or_discarded", sdName(x), "not in Open() (it was reported closed while the caller was not polling)")
+				return
+			case seen[x]:
+				c.Fail("open_no_repeat", "open_contains_descriptor_twice", sdName(x), "once")
+				return
+			case in.seq < last:
+				c.Fail("open_order", "open_not_in_opening_order", sdName(x), "ascending opening order")
+				return
+			}
+			seen[x] = true
+			last = in.seq
+		}
+	}
+}
+
 func (c10) Exec(script interface{}, c *core.Ctx) {
 	s := script.(*C10Script)
+	if s.Workload == "unpolled" {
+		c10Unpolled(s, c)
+		return
+	}
 	st := scte35.NewState()
 	info := map[scte35.SegmentationDescriptor]*c10Info{}
 	// pending breakaways, in acceptance order: kept by the tracker but (the most
@@ -1052,6 +1161,19 @@ func (c10) Shrink(script interface{}) []interface{} {
 		n.Sizes = append([]int(nil), s.Sizes...)
 		return &n
 	}
+	for i := range s.Blocks {
+		n := cp()
+		n.Blocks = append(append([]C10Block(nil), s.Blocks[:i]...), s.Blocks[i+1:]...)
+		out = append(out, n)
+		if s.Blocks[i].Count > 1 {
+			for _, cnt := range []int{s.Blocks[i].Count / 2, s.Blocks[i].Count - 1} {
+				n := cp()
+				n.Blocks = append([]C10Block(nil), s.Blocks...)
+				n.Blocks[i].Count = cnt
+				out = append(out, n)
+			}
+		}
+	}
 	for _, keep := range core.DropChunks(len(s.Steps)) {
 		n := cp()
 		n.Steps = nil
@@ -1076,6 +1198,9 @@ func (c10) Shrink(script interface{}) []interface{} {
 		out = append(out, n)
 	}
 	for i, st := range s.Steps {
+		if len(s.Steps) > 200 {
+			break
+		}
 		if st.Twice {
 			n := cp()
 			n.Steps[i].Twice = false
@@ -1100,7 +1225,7 @@ func (c10) Shrink(script interface{}) []interface{} {
 		used[st.Sig] = true
 	}
 	for i, sg := range s.Signals {
-		if !used[i] {
+		if !used[i] || len(used) > 200 {
 			continue
 		}
 		if len(sg.Descs) > 1 {
